@@ -470,6 +470,36 @@ fn break_blocks(spec: &OptSpec, units: &[U], rng: &mut Rng) -> Vec<Broken> {
             });
         }
     }
+    // a group nested in another group, written in front of the outer block instead of inside it
+    {
+        let mut k = 1;
+        while k < units.len() {
+            let (inner, outer) = (units[k].block, units[k - 1].block);
+            if inner.is_some() && outer.is_some() && inner != outer {
+                // is `inner` nested in `outer` (the outer block started earlier)?
+                let lo_outer = units.iter().position(|u| u.block == outer).unwrap_or(0);
+                let lo_inner = units.iter().position(|u| u.block == inner).unwrap_or(k);
+                if lo_inner == k && lo_outer < k {
+                    let mut j = k;
+                    while j + 1 < units.len() && units[j + 1].block == inner {
+                        j += 1;
+                    }
+                    let mut m = units.to_vec();
+                    let moved: Vec<U> = m.drain(k..=j).collect();
+                    for (n, u) in moved.into_iter().enumerate() {
+                        m.insert(lo_outer + n, u);
+                    }
+                    out.push(Broken {
+                        units: m,
+                        kind: "nested-group-in-front-of-its-outer-block",
+                        sure: false,
+                    });
+                    break;
+                }
+            }
+            k += 1;
+        }
+    }
     // a nested member split in two: its near half, then a later member of the block, then an item
     // of the enclosing level, then the far half (`-a 1 -z -e 2` for `-a [X Y] [-z]`)
     if idx.len() >= 4 && matches!(units[hi].kind, UKind::Flag { .. }) {
